@@ -28,6 +28,7 @@ func zzPropObject(threshold int32) *zzObj {
 			if err != nil {
 				return fmt.Errorf("cannot read Delay: %s", err)
 			}
+			sym.Yield() // validating takes time: other writes may arrive meanwhile
 			if prop < threshold {
 				return fmt.Errorf("delay too small")
 			}
@@ -410,4 +411,40 @@ func C14TwoUpdaters() {
 			sym.And(sym.EqBytes(evs[0].Payload, ey), sym.EqBytes(evs[1].Payload, ex))), "two-updaters/events-carry-the-two-values")
 	}
 	sym.Reach("two-updaters-done")
+}
+
+// C14InvalidUpdateRacing: a value the validator refuses is written (service side) while another,
+// valid, write of the same property is being validated: the refusal holds whatever else is going on —
+// the invalid write returns an error, is never announced and never readable.
+func C14InvalidUpdateRacing() {
+	sym.Schedules(false)
+	o := zzPropObject(0)
+	front := o.front.(*stubObject)
+	h := front.signal
+	h.Activate(Activation{ServiceID: 9, ObjectID: 1})
+	st := newZZStream()
+	ch := NewChannel(net.NewEndPoint(st), DefaultCap())
+	msg := zzFrame(net.Call, 9, 1, 0, 10, zzRegisterPayload(1, zzPropID, 70))
+	sym.Assert(h.RegisterEvent(&msg, ch) == nil, "register-ok")
+	mark := len(st.sentMessages())
+	x, y := sym.I32("valid-value"), sym.I32("invalid-value")
+	sym.Assume(x >= 0)
+	sym.Assume(y < 0)
+	var errValid, errInvalid error
+	done := make(chan bool, 2)
+	sym.Schedules(true)
+	go func() { errValid = o.front.UpdateProperty(zzPropID, "i", zzLE32(uint32(x))); done <- true }()
+	go func() { errInvalid = o.front.UpdateProperty(zzPropID, "i", zzLE32(uint32(y))); done <- true }()
+	<-done
+	<-done
+	sym.Schedules(false)
+	sym.Quiesce()
+	sym.Assert(errValid == nil, "invalid-racing/valid-write-refused")
+	sym.Assert(errInvalid != nil, "invalid-racing/refused-value-accepted")
+	evs := st.sentMessages()[mark:]
+	sym.Assert(len(evs) == 1, "invalid-racing/event-count")
+	for _, ev := range evs {
+		sym.Assert(sym.EqBytes(ev.Payload, zzLE32(uint32(x))), "invalid-racing/refused-value-announced")
+	}
+	sym.Reach("invalid-racing-done")
 }
